@@ -389,7 +389,9 @@ SerdeOK(pre, j, back) ==
   /\ j.hypergraph.quotient = <<pre.ql, pre.qr>>
 ConfLax(op, st, a, o) ==
   LET pre == PreOf(st, a) IN
-  CASE op = "lax.new_node" -> Stepped(o, LNewNode(pre, a.label))
+  CASE op = "lax.reset" -> o.post = LaxEmpty                                  \* start of a recorded history
+    [] op = "lax.set_interfaces" -> IsVal(o) /\ o.post = [pre EXCEPT !.sources = a.s, !.targets = a.t]   \* plain field assignment
+    [] op = "lax.new_node" -> Stepped(o, LNewNode(pre, a.label))
     [] op = "lax.new_edge" -> Stepped(o, LNewEdge(pre, a.x, a.s, a.t))
     [] op = "lax.new_operation" -> Stepped(o, LNewOperation(pre, a.x, a.a, a.b))
     [] op = "lax.add_edge_source" -> Stepped(o, LAddEdgeSource(pre, a.e, a.label))
@@ -463,7 +465,7 @@ GraphOps == {"arrow.is_convex_subgraph", "arrow.is_monomorphism", "arrow.new", "
 FunctorOps == {"functor.identity", "functor.laws", "functor.map_arrow", "functor.map_object", "laxf.dyn_map_arrow", "laxf.identity", "laxf.map_arrow_witness", "laxf.try_define_map_arrow"}
 OpticOps == {"laxf.optic_map_adapted", "laxf.optic_map_arrow", "optic.eval_adapted", "optic.laws", "optic.map_adapted", "optic.map_arrow"}
 VarOps == {"var.forget", "var.forget_eval", "var.forget_monogamous", "var.script"}
-LaxOps == {"lax.add_edge_source", "lax.add_edge_target", "lax.append", "lax.compose", "lax.compose_shr", "lax.dagger", "lax.delete_edges", "lax.delete_nodes", "lax.empty", "lax.from_strict", "lax.h.coequalizer", "lax.h.coproduct_assign", "lax.h.delete_edge", "lax.h.delete_nodes", "lax.h.delete_nodes_witness", "lax.h.quotient", "lax.h.to_hypergraph", "lax.half_spider", "lax.identity", "lax.is_strict", "lax.lax_compose", "lax.map_edges", "lax.map_nodes", "lax.new_edge", "lax.new_node", "lax.new_operation", "lax.quotient", "lax.quotient_witness", "lax.roundtrip_lax", "lax.roundtrip_strict", "lax.serde_roundtrip", "lax.singleton", "lax.source", "lax.spider", "lax.target", "lax.tensor", "lax.tensor3", "lax.tensor_assign", "lax.tensor_bitor", "lax.to_open_hypergraph", "lax.to_strict", "lax.twist", "lax.unify", "lax.with_edges", "lax.with_nodes"}
+LaxOps == {"lax.reset", "lax.set_interfaces", "lax.add_edge_source", "lax.add_edge_target", "lax.append", "lax.compose", "lax.compose_shr", "lax.dagger", "lax.delete_edges", "lax.delete_nodes", "lax.empty", "lax.from_strict", "lax.h.coequalizer", "lax.h.coproduct_assign", "lax.h.delete_edge", "lax.h.delete_nodes", "lax.h.delete_nodes_witness", "lax.h.quotient", "lax.h.to_hypergraph", "lax.half_spider", "lax.identity", "lax.is_strict", "lax.lax_compose", "lax.map_edges", "lax.map_nodes", "lax.new_edge", "lax.new_node", "lax.new_operation", "lax.quotient", "lax.quotient_witness", "lax.roundtrip_lax", "lax.roundtrip_strict", "lax.serde_roundtrip", "lax.singleton", "lax.source", "lax.spider", "lax.target", "lax.tensor", "lax.tensor3", "lax.tensor_assign", "lax.tensor_bitor", "lax.to_open_hypergraph", "lax.to_strict", "lax.twist", "lax.unify", "lax.with_edges", "lax.with_nodes"}
 ConfEvent(st, ev) ==
   LET op == ev.op  a == ev.args  o == ev.obs IN
   CASE op \in ArrOps -> ConfArr(op, a, o)
